@@ -204,6 +204,18 @@ func selfCloseScenario(how string, c int) *explore.Scenario {
 	return &explore.Scenario{Name: "selfclose/" + how, C: c, Body: func() {
 		e := newEnv()
 		e.addHandler("a", 1)
+		// a second AddHandler under the same name is refused with the documented panic; a caller that recovers from it
+		// has a router with one handler, as before
+		if vs.Choose(2, 0, "a duplicate-name AddHandler was refused before") == 1 {
+			func() {
+				defer func() {
+					if recover() == nil {
+						vs.Fail("setup", "AddHandler with a duplicate name did not panic")
+					}
+				}()
+				e.r.AddNoPublisherHandler("a", "in-a2", hx.NewScriptSub("a2", nil), func(*message.Message) error { return nil })
+			}()
+		}
 		runDone := false
 		ctx, cancel := context.WithCancel(context.Background())
 		e.run(ctx, &runDone)
